@@ -107,6 +107,18 @@ def generate():
     finally:
         if os.path.exists(exe8):
             os.unlink(exe8)
+    # strings through text: escaping of every byte, decoding of \u escapes
+    exe9 = os.path.join(CACHE, "dump_unicode.%d" % os.getpid())
+    try:
+        subprocess.run(["g++", "-std=gnu++17", "-O0", "-I" + REPO + "/src", os.path.join(ROOT, "harness", "dump_unicode.cpp"), "-o", exe9],
+                       check=True, stdout=subprocess.PIPE, stderr=subprocess.PIPE, text=True)
+        unirows = {}
+        for line in run([exe9]).splitlines():
+            k, _, v = line.partition(" ")
+            unirows[k] = v.split()
+    finally:
+        if os.path.exists(exe9):
+            os.unlink(exe9)
     vals = {}
     for line in dump.splitlines():
         k, _, v = line.partition(" ")
@@ -180,6 +192,11 @@ def generate():
     L.append("/-- (filter text, input text, code 0 = Ok, serializeJson of the filtered document) -/")
     L.append("def filter_rows : List (List Nat × List Nat × Nat × List Nat) := [%s]" % ", ".join(
         "(%s, %s, %s, %s)" % (hexl(e.split(":")[0]), hexl(e.split(":")[1]), e.split(":")[2], hexl(e.split(":")[3])) for e in docrows["filter_rows"]))
+    L.append("/-- (byte b, serializeJson of the one-byte string b) for all 256 bytes -/")
+    L.append("def escape_rows : List (Nat × List Nat) := [%s]" % ", ".join("(%s, %s)" % (e.split(":")[0], hexl(e.split(":")[1])) for e in unirows["escape_rows"]))
+    L.append("/-- (JSON text of a string with \\u escapes, code 0 = Ok 2 = IncompleteInput 3 = InvalidInput, 1 if the result is a string, its bytes) -/")
+    L.append("def unicode_rows : List (List Nat × Nat × Nat × List Nat) := [%s]" % ", ".join(
+        "(%s, %s, %s, %s)" % (hexl(e.split(":")[0]), e.split(":")[1], e.split(":")[2], hexl(e.split(":")[3])) for e in unirows["unicode_rows"]))
     for k in sorted(jsonfirst):
         L.append("/-- deserializeJson on a first byte and a fixed tail (alone: nothing; elem: `1]`; key: `\":1}x`), nesting limit 10; plain = default build, ext = comments, NaN and Infinity enabled: (first byte, code, bytes consumed, serializeJson of the document left) -/")
         L.append("def %s : List (Nat × Nat × Nat × List Nat) := [%s]" % (k, ", ".join(mprow(e) for e in jsonfirst[k])))
